@@ -74,6 +74,10 @@ P = {
    text="Decided by abstract interpretation of integer bounds over SSA (lower bound, input-bounded/constant upper bound, bit widths of the target architecture, branch refinement, getter summaries computed from real_decoder.go and trusted only after the paired error test) plus guard/path rules: every raw-buffer access and cursor advance of realDecoder is justified by a still-valid remaining() ≥ need test (bulk loops by remaining() ≥ w·n); every make() reachable from the decoders of untrusted data has a non-negative, input-bounded or small-constant size; response-size cap; whole-buffer-consumed and length/CRC mismatch = error; decode loops make progress.",
    note="Memory use of decompression, third-party codecs, CRC collision strength and semantic validity of decoded values are not covered. Trusted library contracts: binary.Varint/Uvarint return |n| ≤ len(buf); binary.PutVarint ≤ 10.",
    technique="abstract interpretation (interval-like domain with symbolic 'input-bounded' bound) over go/ssa + dominating-guard validity analysis"),
+ "C09": dict(claimed=True,
+   text="Shape agreement (not value equality) decided for all 136 types that have both encode and decode and every version 0..max+1 their code mentions: finite automata over wire tokens are built from the SSA control-flow graphs (nested calls spliced, version branches evaluated, data branches non-deterministic, error returns rejecting) and L(encoder) ⊆ L(decoder) is checked by subset construction; push/pop balance; allocateBody key table; sizing pass vs writing pass of every put* method compared as symbolic linear forms per nil-condition; length/CRC field ranges and polynomial dispatch.",
+   note="Which bytes are written (values), compression codecs, varint arithmetic and agreement with the Kafka specification are not covered. Exclusions (request wrapper, ControlRecord, one nested-only block) are tabled with reasons in rules_c09.go.",
+   technique="automata extraction from go/ssa CFGs + language inclusion (subset construction); symbolic size summaries"),
  "C01": dict(claimed=True,
    text="Structural necessary conditions of exactly-one-outcome decided on every CFG path of the producer pipeline (emit/Done pairing, no partially disposed batch, marker accounting, exactly-once routing of every partition set, retry budget guards, Wait-before-close, sync-producer expectation protocol). It is not a proof of the behaviour: cross-goroutine liveness of the retry loop is not covered.",
    note="Trusts go/ssa's model of the source; disposer functions are computed as a fixed point from the source, channel/field anchors are named in rules_c01.go.",
